@@ -8,7 +8,7 @@ import re
 from ..core import Checker, Rule, attr_calls, callee_is, calls_in, kwarg, resolved_calls, short
 from ..interp import Pins, find_nodes, unparse
 from ..model import AnalysisError
-from .util import inline_displays, effect_table, enclosing_loop, enclosing_stmt, enum_members, every_iteration_reaches, fmt, is_const, parent, returns_of, same
+from .util import inline_displays, effect_table, enclosing_loop, enclosing_stmt, enum_members, every_iteration_reaches, fmt, is_const, parent, returns_of, same, single_def
 
 P = ("C11", "C01", "C06")
 CLS = "symmetry:SymmetryTranslator"
@@ -328,9 +328,39 @@ def r_apply(ck: Checker) -> None:
         ck.add("only the body is replaced", kws == {"body"}, func, ups[0], f"update keywords {sorted(kws)}", "C06: heads are kept")
 
 
+def r_all_equal(ck: Checker) -> None:
+    """candidate groups consist of literals of ONE predicate: same name and same arity"""
+    func = ck.func("symmetry:SymmetryTranslator._all_equal_symbols")
+    it = ck.interp(func)
+    ys = [n for n in find_nodes(func.node, lambda n: isinstance(n, ast.Yield)) if n.value is not None]
+    ck.need(len(ys) == 1, "_all_equal_symbols yields the groups at one site")
+    site = enclosing_stmt(func, ys[0])
+    cands = {n.id for n in find_nodes(func.node, lambda n: isinstance(n, ast.Name)) if isinstance(n.ctx, ast.Load)}  # type: ignore[attr-defined]
+    lens = [f"len({c}) == 1" for c in sorted(cands) if it.holds(site, f"len({c}) == 1") and not it.holds(site, f"len({c}) == 2")]
+    names = {re.fullmatch(r"len\((\w+)\) == 1", k).group(1) for k in lens}  # type: ignore[union-attr]
+    good = False
+    detail = f"dominating facts {lens}"
+    for name in names:
+        d = single_def(func, name)
+        texts = set()
+        if isinstance(d, ast.SetComp):
+            texts.add(unparse(d))
+        for c in attr_calls(func, "add"):
+            if unparse(c.func.value) == name:  # type: ignore[attr-defined]
+                lp = enclosing_loop(func, c)
+                for t in it.texts(c, c.args[0]):
+                    texts.add(f"{{{t} for {unparse(lp.target)} in {unparse(lp.iter)}}}" if lp is not None else t)
+        detail = f"`{name}` = {sorted(texts)}"
+        if texts and all(re.fullmatch(r"\{Predicate\((\w+)\.atom\.symbol\.name, len\(\1\.atom\.symbol\.arguments\)\) for \1 in (\w+)\}", t) for t in texts):
+            good = True
+    ck.add("a group is yielded only if all its literals have the same predicate name AND arity", good, func, site, detail,
+           "`assign(X,Z), assign(Y), X != Y` are two different predicates: zip() over their arguments silently truncates and the assign/1 literal disappears from the rule")
+
+
 RULES = [
     Rule("C11.TABLE.inequalities", P, r_inequalities),
     Rule("C11.unequal-pair", P, r_unequal),
+    Rule("C11.all-equal", P, r_all_equal),
     Rule("C11.group", P, r_group, extra={"C03": ("groups do not overlap",)}),
     Rule("C11.crosscheck", P, r_crosscheck),
     Rule("C11.bundle", P, r_bundle),
